@@ -2,11 +2,11 @@ CONSTANTS
   Prelude <- PreBody
   Fresh <- Fresh2
   PreScopes = {"_SB_"}
-  MaxProd = 4  MaxTables = 1  MaxDepth = 1
+  MaxProd = 5  MaxTables = 1  MaxDepth = 1
   Decls = {}
   Forms = {}
   Values = {}
-  Stmts = {"if", "else", "while", "notify"}  MaxStmts = 4
+  Stmts = {"if", "else", "while", "notify"}  MaxStmts = 5
   Devs = {"IndexFieldNamed", "AliasKeepsSourceName", "ExternalIsObject", "CreateFieldNotNamed", "PackageMethodRefInvoked", "VarPackageCountByte", "MatchOperatorBytes", "LoadTableSevenOperands", "IfBodyFlattened", "RelPathInTerm", "ValueNamesFromFinalPlace", "EmptyBufferInDeferred"}
   Excluded = {"D1", "D1b", "D2", "D2c", "D3", "D5", "D6", "D7", "D9", "IndexFieldNamed", "AliasKeepsSourceName", "ExternalIsObject", "CreateFieldNotNamed", "PackageMethodRefInvoked", "VarPackageCountByte", "MatchOperatorBytes", "LoadTableSevenOperands", "IfBodyFlattened", "RelPathInTerm", "ValueNamesFromFinalPlace", "EmptyBufferInDeferred", "InvisibleCallee", "MethodAsRef", "HiddenNameInDeferred", "BankFieldUnitInDeferred"}
   Emit = TRUE  Bug = ""
